@@ -215,7 +215,60 @@ def r05_9(ctx):
     return rr
 
 
-RULES = [r05_1, r05_2, r05_3, r05_4, r05_5, r05_9]
+def r05_10(ctx):
+    rr = RuleResult(
+        "R05.10", "PASS",
+        "dask.persist(x) optimizes the raw expression itself and rebuilds x from the advertised chunks: either no rewrite may put a root on another block grid, or the generic path passes the root bridge of _materialize",
+        min_instances=3,
+    )
+    from .common import cfg_of, chain_conjuncts
+
+    repo = ctx.repo
+    # upstream fact, parsed from the installed source (never imported)
+    base = repo.module("dask.base")
+    if base is None or "persist" not in base.functions:
+        from ..model import AnalysisError
+
+        raise AnalysisError("installed dask/base.py::persist could not be located/parsed")
+    up = base.functions["persist"]
+    txt = unparse(up.node)
+    generic = "collections_to_expr(" in txt and ".optimize()" in txt and "__dask_postpersist__()" in txt and "expr.__dask_keys__()" in txt
+    rr.inst("dask/base.py::persist", optimizes_raw_expression_and_rebuilds_by_postpersist=generic)
+    if not generic:
+        rr.notes.append("upstream dask.persist no longer optimizes the raw expression itself: the root bridge question does not arise on this path")
+        return rr
+    # the rebuild trusts the advertised chunks
+    arr = repo.mod("dask_array._collection").cls("Array")
+    pp = arr.methods.get("__dask_postpersist__")
+    need(pp is not None, "Array.__dask_postpersist__")
+    trusts = "self.chunks" in unparse(pp.node)
+    rr.inst(site(pp), rebuilds_from_advertised_chunks=trusts)
+    # may a rewrite hand back a replacement on another grid when nobody observes it?
+    ae = repo.mod("dask_array._expr").cls("ArrayExpr")
+    pg = ae.methods.get("_preserve_grid_contract")
+    need(pg is not None, "ArrayExpr._preserve_grid_contract")
+    cfg = cfg_of(ctx, pg)
+    loose = []
+    for r in cfg.returns:
+        if r.value is None or unparse(r.value) == "None":
+            continue
+        conj = chain_conjuncts(cfg, r, pg.node, pg.module)
+        if not any("chunks" in c and "==" in c for c in conj):
+            loose.append(r)
+    rr.inst(site(pg), returns_without_chunk_equality=len(loose))
+    if trusts and loose:
+        ctx.finding(
+            rr, "dask/base.py::persist::root grid not bridged",
+            "dask.persist(x) (upstream) optimizes x's raw expression itself, takes the keys of the OPTIMIZED expression and rebuilds x with Array.__dask_postpersist__, which assumes the advertised chunks; "
+            "a rewrite may put the root on another block grid when nothing observes it (ArrayExpr._preserve_grid_contract returns the replacement without comparing chunks; the sliding-window fusion likewise), and the only "
+            "place that bridges a root back to its advertised grid is _materialize, which this path never passes: dask.persist(da.take(x + y, ix)) and dask.persist(sliding_window_view(x, 3).sum(-1)) raise "
+            "'from_graph cannot find output block', where x.persist() works",
+            func=pg, node=loose[0],
+        )
+    return rr
+
+
+RULES = [r05_1, r05_2, r05_3, r05_4, r05_5, r05_9, r05_10]
 
 LEVEL_TEXT = (
     "Static decision that all entry points (compute, persist, __dask_graph__, to_delayed, Frisky hooks, dask's generic "
